@@ -164,6 +164,7 @@ func c43GenHistory(rt *rapid.T, modes []string, ticks, external bool) *c43Histor
 	n := rapid.IntRange(3, 30).Draw(rt, "nops")
 	nticks := 0
 	shortAdded, afterTick := false, false
+	var shortIdents []int
 	for i := 0; i < n; i++ {
 		var op c43Op
 		k := c43OpTable[rapid.IntRange(0, len(c43OpTable)-1).Draw(rt, "opKind")]
@@ -173,6 +174,13 @@ func c43GenHistory(rt *rapid.T, modes []string, ticks, external bool) *c43Histor
 		if ticks && afterTick && rapid.IntRange(0, 3).Draw(rt, "afterTick") != 0 {
 			k = rapid.SampledFrom([]int{70, 70, 60, 30, 92}).Draw(rt, "observe") // sign, list, remove, signers
 		}
+		if i < 3 && rapid.IntRange(0, 4).Draw(rt, "startWithAdd") != 0 {
+			k = 10 // begin with a few adds
+		}
+		if k >= 46 && k < 56 && !simLocked && rapid.IntRange(0, 2).Draw(rt, "unlockWhenOpen") != 0 {
+			k = 70
+		}
+		observeShort := afterTick
 		afterTick = false
 		switch {
 		case k < 24:
@@ -196,6 +204,7 @@ func c43GenHistory(rt *rapid.T, modes []string, ticks, external bool) *c43Histor
 			}
 			if op.Lifetime > 0 && op.Lifetime <= 2 {
 				shortAdded = true
+				shortIdents = append(shortIdents, op.Ident)
 			}
 			if !external {
 				switch rapid.IntRange(0, 15).Draw(rt, "constraint") {
@@ -282,6 +291,9 @@ func c43GenHistory(rt *rapid.T, modes []string, ticks, external bool) *c43Histor
 			for j := 0; j < nb; j++ {
 				op.Burst = append(op.Burst, c43Burst{Ident: pickHeld(), Data: rapid.SliceOfN(rapid.Byte(), 1, 40).Draw(rt, "bdata")})
 			}
+		}
+		if observeShort && len(shortIdents) > 0 && (op.Kind == "sign" || op.Kind == "remove") && rapid.IntRange(0, 4).Draw(rt, "onShort") != 0 {
+			op.Ident = rapid.SampledFrom(shortIdents).Draw(rt, "shortIdent")
 		}
 		h.Ops = append(h.Ops, op)
 		if ticks && shortAdded && nticks < 2 && rapid.IntRange(0, 3).Draw(rt, "tick") == 0 {
